@@ -18,6 +18,8 @@ from femmio import UNIT_M
 from runner import Run
 
 TYPES = {"e": dict(area=1, volume=2, energy=0), "h": dict(area=1, volume=2), "m": dict(area=5, volume=10, energy=2, AJ=0, coenergy=17, current=7)}
+# averages (not additive): asked of the real post-processor only to be compared with the integrand model
+AVERAGES = {"h": dict(avgT=0, avgF=3, avgG=4)}
 
 
 def region_area(r):
@@ -153,6 +155,8 @@ def main(argv):
                         s.clear_blocks()
                 for name, ty in types.items():
                     s.block_integral("S%d_%s" % (q, name), ty)
+                for name, ty in AVERAGES.get(kind, {}).items():
+                    s.block_integral("S%d_%s" % (q, name), ty)
                 s.clear_blocks()
             # contours along the four outer sides
             W = max(n["x"] for n in p.nodes[:4]); H = max(n["y"] for n in p.nodes[:4])
@@ -231,6 +235,37 @@ def main(argv):
                     if abs(got - mv) > 4e-15 * sc and abs(got - mv) > 1e-15 * max(sum(abs(v) for v in per[name] if v is not None), 1e-300):
                         ck.obligation_broken("correspondence postint-e: %s integral of the real post-processor vs Model/PostIntE.lean summed in mesh order" % name,
                                              dict(sequence=seqs[q], impl=got, model=mv, files=run.files()))
+                        break
+            # ---- stage B (heat flow): area, volume and the averages (temperature, gradient, flux density) vs Model/PostIntH.lean
+            if kind == "h" and states and not any(l_.get("ext") for l_ in p.labels):
+                LC = dict(inches=0.0254, millimeters=0.001, centimeters=0.01, meters=1.0, mils=2.54e-05, microns=1.e-06)[p.units]
+                sol_ = femmio.read_solution(run.solution_path(), "h")
+                req = ["consts %d %s %s %s" % (1 if axi else 0, d2tok(p.depth * LC), d2tok(math.pi), d2tok(LC))]
+                for b_ in p.blockprops:
+                    req.append("mat %s %s" % (d2tok(b_.get("Kx", 1.0)), d2tok(b_.get("Ky", 1.0))) + "".join(" %s %s" % (d2tok(T_), d2tok(k_)) for (T_, k_) in b_.get("TK", [])))
+                req += ["lab %d" % l_["block"] for l_ in p.labels]
+                req += ["n %s %s %s" % (d2tok(n_[0]), d2tok(n_[1]), d2tok(n_[2])) for n_ in sol_["nodes"]]
+                req += ["e %d %d %d %d" % (int(e_[0]), int(e_[1]), int(e_[2]), int(e_[3])) for e_ in sol_["elements"]]
+                asked = []
+                alltypes = dict(types, **AVERAGES["h"])
+                for q in range(min(len(seqs), len(states))):
+                    for name in ("area", "volume", "avgT", "avgF", "avgG"):
+                        req.append("int %d %s" % (alltypes[name], states[q]))
+                        asked.append((q, name))
+                repm, _, _ = vlib.run_lines([mx, "postint-h"], req, timeout=900)
+                for (q, name), rm in zip(asked, repm):
+                    gv = out.get("S%d_%s" % (q, name), [None, None])
+                    tk_ = rm.split()
+                    if gv[0] is None or len(tk_) != 2 or not tk_[0].startswith("x"):
+                        continue
+                    # ho_blockintegral returns the real and the imaginary part (x and y component of a vector average)
+                    got = complex(complex(gv[0]).real, complex(gv[1]).real if len(gv) > 1 and gv[1] is not None else 0.0)
+                    mv = complex(tok2d(tk_[0]), tok2d(tk_[1]))
+                    stats["model_integrals_compared"] = stats.get("model_integrals_compared", 0) + 1
+                    sc = max(abs(mv), abs(got), 1e-300)
+                    if abs(got - mv) > 4e-15 * sc:
+                        ck.obligation_broken("correspondence postint-h: %s of the real heat post-processor vs Model/PostIntH.lean summed in mesh order" % name,
+                                             dict(sequence=seqs[q], impl=[got.real, got.imag], model=[mv.real, mv.imag], files=run.files()))
                         break
             # ---- geometry
             u = UNIT_M[p.units]
